@@ -3701,9 +3701,12 @@ func (d *Document) updateNextImageID() {
 	// 遍历所有parts，查找已存在的图片文件的最大ID
 	for partName := range d.parts {
 		// 检查是否是图片文件（word/media/imageN.xxx）
-		if len(partName) > 11 && partName[:11] == "word/media/" {
+		// OPC部件名不区分大小写：IMAGE5.png 与新加入的 image5.png 是同一个部件名，
+		// 所以按小写比较
+		lowerName := strings.ToLower(partName)
+		if len(lowerName) > 11 && lowerName[:11] == "word/media/" {
 			// 从文件名中提取图片ID（image0.png -> 0, image1.png -> 1等）
-			filename := partName[11:] // 去掉"word/media/"前缀
+			filename := lowerName[11:] // 去掉"word/media/"前缀
 			var id int
 			if _, err := fmt.Sscanf(filename, "image%d.", &id); err == nil {
 				if id > maxImageID {
